@@ -65,6 +65,7 @@ func NewCheck(prop, tier, level string) (*Check, error) {
 	}
 	c.S = s
 	c.R = NewRunner(s)
+	c.R.Deadline = c.Deadline
 	if err := c.loadKnown(); err != nil {
 		return nil, err
 	}
